@@ -836,9 +836,9 @@ def h_same_distinct(c, v, operand):
     if c1 is None or c2 is None:
         return U  # a selection that is not assigned to any task
     common = set(v.sspec[c["s1"]]["workers"]) & set(v.sspec[c["s2"]]["workers"])
-    # a selection whose task is not scheduled: nothing documented
+    # a selection whose task is not scheduled: an unscheduled task occupies no worker and triggers no constraint (C06)
     if not (v.sch(t1) and v.sch(t2)):
-        return U
+        return _vacuous(operand)
     if c["type"] == "SameWorkers":
         return tv(all((w in c1) == (w in c2) for w in common))
     return tv(not any(w in c1 and w in c2 for w in common))
